@@ -18,9 +18,11 @@ import (
 	"fmt"
 	"io"
 	"math/big"
+	"os"
 	"runtime"
 	"runtime/debug"
 	"sort"
+	"strconv"
 	"testing"
 
 	"github.com/ChainSafe/gossamer/internal/verifmc"
@@ -389,6 +391,18 @@ func c12WalkVecMaps(t *ref.C11Type, v *ref.C11Val, f func(mt *ref.C11Type, entri
 	}
 }
 
+// c12Violate forwards a violation to the report; the description is only formatted for the first
+// three violations of a signature in this task (the report keeps three per signature anyway).
+func c12Violate(r *verifmc.Report, cnt *c11Counts, sig string, mk func() (string, any)) {
+	cnt.vio[sig]++
+	if cnt.vio[sig] <= 3 {
+		desc, replay := mk()
+		r.Violate(sig, desc, replay)
+		return
+	}
+	r.Violate(sig, "", nil) // counted only: at least three of this signature were already recorded
+}
+
 // c12Check runs the real decoder on one input through one reader and applies the oracle.
 // It returns true when the decoder accepted the input.
 func c12Check(r *verifmc.Report, cnt *c11Counts, t *ref.C11Type, input []byte, mode, k int, class string) bool {
@@ -417,7 +431,9 @@ func c12Check(r *verifmc.Report, cnt *c11Counts, t *ref.C11Type, input []byte, m
 	}
 	if p, msg := verifmc.Guard(func() { err = NewDecoder(rd).Decode(dest.Interface()) }); p {
 		cnt.outcome[class+":panic"]++
-		r.Violate("Decode:panic@"+c11PanicSite(msg)+suffix, fmt.Sprintf("decoding %x into %s panics: %s", input, ref.C11Name(t), msg), mk())
+		c12Violate(r, cnt, "Decode:panic@"+c11PanicSite(msg)+suffix, func() (string, any) {
+			return fmt.Sprintf("decoding %x into %s panics: %s", input, ref.C11Name(t), msg), mk()
+		})
 		return false
 	}
 	if err != nil {
@@ -427,16 +443,16 @@ func c12Check(r *verifmc.Report, cnt *c11Counts, t *ref.C11Type, input []byte, m
 	consumed := rd.pos
 	limit := 1<<14 + 64*len(input)
 	val, cerr := c11FromGo(t, dest.Elem(), &limit)
-	cs := mk()
-	cs.Consumed = consumed
 	if cerr != nil {
 		cnt.outcome[class+":accepted-malformed"]++
-		r.Violate("Decode:malformed-result:"+cerr.Error()+suffix, fmt.Sprintf("decoding %x into %s succeeds and leaves %s", input, cs.Type, cerr), cs)
+		c12Violate(r, cnt, "Decode:malformed-result:"+cerr.Error()+suffix, func() (string, any) {
+			cs := mk()
+			cs.Consumed = consumed
+			return fmt.Sprintf("decoding %x into %s succeeds and leaves %s", input, cs.Type, cerr), cs
+		})
 		return true
 	}
 	reenc := ref.C11Enc(t, c12Unsign(t, val))
-	cs.Got = ref.C11String(t, val)
-	cs.ReEnc = verifmc.Hex(reenc)
 	if bytes.Equal(reenc, input[:consumed]) {
 		cnt.outcome[class+":accepted-canonical"]++
 		return true
@@ -475,7 +491,13 @@ func c12Check(r *verifmc.Report, cnt *c11Counts, t *ref.C11Type, input []byte, m
 		sig = "Decode:wrong-value@" + c12LeafGroup(c11FirstDiff(t, rv, val))
 	}
 	cnt.outcome[class+":accepted-VIOLATING"]++
-	r.Violate(sig+suffix, fmt.Sprintf("decoding %x into %s (reader %s) succeeds with %s after %d bytes; the canonical encoding of that value is %x", input, cs.Type, cs.Reader, cs.Got, consumed, reenc), cs)
+	c12Violate(r, cnt, sig+suffix, func() (string, any) {
+		cs := mk()
+		cs.Consumed = consumed
+		cs.Got = ref.C11String(t, val)
+		cs.ReEnc = verifmc.Hex(reenc)
+		return fmt.Sprintf("decoding %x into %s (reader %s) succeeds with %s after %d bytes; the canonical encoding of that value is %x", input, cs.Type, cs.Reader, cs.Got, consumed, reenc), cs
+	})
 	return true
 }
 
@@ -543,18 +565,18 @@ func c12TypeTask(r *verifmc.Report, t *ref.C11Type, depth int) {
 				c12Check(r, cnt, t, e, c12Split, k, "canonical/split")
 			}
 		}
-		// every truncation
+		// every truncation (long encodings: the first and last 8 cut points)
 		for l := 0; l < len(e); l++ {
-			if len(e) > 200 && l > 8 && l < len(e)-8 {
+			if len(e) > 64 && l > 8 && l < len(e)-8 {
 				continue
 			}
 			c12Check(r, cnt, t, e[:l], c12Whole, 0, "truncation")
 			c12Check(r, cnt, t, e[:l], c12OneByte, 0, "truncation/one-byte-reads")
 		}
-		// single-byte substitutions
+		// single-byte substitutions (long encodings: the first 4 positions and the last one)
 		for pos := 0; pos < len(e); pos++ {
-			if len(e) > 200 && pos > 8 {
-				break
+			if len(e) > 64 && pos >= 4 && pos != len(e)-1 {
+				continue
 			}
 			var subst []byte
 			if len(e) <= fullSubstLen {
@@ -721,6 +743,10 @@ func TestVerif_C12(t *testing.T) {
 	}
 	if v, n, err := ref.C11Dec(c11BigT, verifmc.UnHex("0b00407a10f35a")); err != nil || n != 7 || v.N.String() != "100000000000000" {
 		t.Fatalf("reference decoder on 0b00407a10f35a: %v %d %v", v, n, err)
+	}
+	if n, _ := strconv.Atoi(os.Getenv("VERIF_C12_DEBUG_TYPES")); n > 0 && n < len(cat) {
+		cat = cat[:n] // debugging aid only; bin/check never sets it
+		r.Capped("debug subset of types")
 	}
 	verifmc.ParallelFor(r, len(cat), func(i int) {
 		c12TypeTask(r, cat[i], c11TypeDepth(cat[i]))
